@@ -4,8 +4,19 @@
    C25T: an end-to-end run of mtail.Server (real tailer, real loader) over
          generated log files: after every tailer event (file created and picked
          up, bytes appended, file removed) the deltas of log_count, lines_total
-         and log_lines_total per file vs Run/TailCounters.v. *)
-From V Require Export Corr.LoaderRun Run.TailCounters.
+         and log_lines_total per file vs Run/TailCounters.v.
+   C25D: the real fan-out loop of runtime.New over stand-in programs (handles
+         whose channel the harness reads), driven through an exact interleaving
+         of sends, the close, hand-overs and the loader's own end of input
+         (Run/Shutdown.v): the interleaving must be one the model allows,
+         lines_total wherever it was read while the loader had nothing in hand,
+         lines_total after shutdown, and the lines every stand-in received.
+   C25E: a history on the real Runtime with real VMs, ended by lines pushed back
+         to back and the channel closed 0-200 us after the last send (a VM may
+         still be busy with a slow line): the counters read after shutdown vs
+         Run/Loader.v settled by the model of the end of the run, under the
+         earliest and the latest position of the close. *)
+From V Require Export Corr.LoaderRun Run.TailCounters Run.Shutdown.
 Local Open Scope N_scope.
 
 Record tobs := mktobs { to_log_count : Z; to_lines_total : N; to_log_lines : list (bytes * N) }.
@@ -21,15 +32,45 @@ Definition tobs_ok (ts : tstate) (o : tobs) : bool :=
 
 Inductive c25case :=
 | C25L (c : lcase)
-| C25T (id : N) (evs : list tev) (obs : list tobs).
+| C25T (id : N) (evs : list tev) (obs : list tobs)
+| C25D (id : N) (names : list bytes) (acts : list act) (obs : list (option N)) (final : N)
+       (got : list (bytes * list cline))
+| C25E (id : N) (omit : bool) (ct : ctab) (vt : vtab) (ops : list op) (ls : list cline) (obs : ocounters).
 
 Definition c25_id (c : c25case) : N :=
-  match c with C25L l => lcase_id l | C25T i _ _ => i end.
+  match c with C25L l => lcase_id l | C25T i _ _ => i | C25D i _ _ _ _ _ => i | C25E i _ _ _ _ _ _ => i end.
+
+Definition cline_eqb (a b : cline) : bool := N.eqb (fst a) (fst b) && Z.eqb (snd a) (snd b).
+
+Definition read_ok (cs : cstate) (o : option N) : bool :=
+  match o with None => true | Some n => N.eqb n (cs_lines cs) end.
+
+Definition c25d_ok (names : list bytes) (acts : list act) (obs : list (option N)) (final : N)
+    (got : list (bytes * list cline)) : bool :=
+  match ctrace (cinit names) acts, crun (cinit names) acts with
+  | Some tr, Some cs =>
+      all2 read_ok tr obs && finished cs && N.eqb final (cs_lines cs)
+      && Nat.eqb (length got) (length names)
+      && forallb (fun pg => bmem (fst pg) names && list_eqb cline_eqb (snd pg) (done_of cs (fst pg))) got
+  | _, _ => false     (* a step the channels do not allow *)
+  end.
+
+Definition c25e_ok (omit : bool) (ct : ctab) (vt : vtab) (ops : list op) (ls : list cline) (obs : ocounters) : bool :=
+  let st0 := run_from true true omit (ctab_get ct) (vtab_get vt) st_empty ops in
+  let names := live st0 in
+  let after (sched : list act) :=
+    match crun (cinit names) sched with
+    | Some cs => finished cs && counters_ok (settle (vtab_get vt) st0 cs) (Some obs)
+    | None => false
+    end in
+  after (sched_early names ls) && after (sched_late names ls).
 
 Definition c25_ok (c : c25case) : bool :=
   match c with
   | C25L l => lcase_ok l
   | C25T _ evs obs => all2 tobs_ok (ttrace ts_empty evs) obs
+  | C25D _ names acts obs final got => c25d_ok names acts obs final got
+  | C25E _ omit ct vt ops ls obs => c25e_ok omit ct vt ops ls obs
   end.
 
 Definition mismatches (l : list c25case) : list N := failing c25_ok c25_id l.
